@@ -68,7 +68,7 @@ def tokenOf (g : MG) (l : ML) : Option String :=
     match ConcCache.opKey l, l.removed, l.ec with
     | some k, some i, some _ => some s!"Cb {k} {i.v.toStr}"
     | _, _, _ => none
-  | .deReadClock => some s!"Clock {g.now}"
+  | .deReadClock | .getTTLClock => some s!"Clock {g.now}"
   | .deCompute =>
     match l.cur with
     | some (k, _) => some s!"items.Compute {k}"
@@ -105,24 +105,16 @@ def performC (s : MSt) (t : Nat) (tok : String) : Nat → Except String MSt
       -- the traversal: the event tells which key the visitor was handed and with which snapshot item
       match toks tok with
       | ["items.RangeVisit", k, it] =>
-        match parseItem it, indexOf? k l.todo 0 with
-        | some i, some idx =>
-          match ConcCache.step s (some t) { pick := idx, seen := some i } 0 with
+        match parseItem it with
+        | some i =>
+          match ConcCache.step s (some t) { key := some k, seen := some i } 0 with
           | some s' => .ok s'
           | none => .error "model blocked at deVisit"
-        | none, _ => .error s!"unparsable item {it}"
-        | _, none => .error s!"Range visited {k}, which the model does not expect (keys left to visit: {l.todo})"
+        | none => .error s!"unparsable item {it}"
       | ["items.RangeEnd"] =>
-        match l.todo with
-        | [] =>
-          match ConcCache.step s (some t) {} 0 with
-          | some s' => .ok s'
-          | none => .error "model blocked at deVisit"
-        | _ :: _ =>
-          -- keys present when the pass began that the traversal did not meet (removed meanwhile): skipped
-          match ConcCache.step s (some t) { pick := 0, seen := none } 0 with
-          | some s' => performC s' t tok fuel
-          | none => .error "model blocked at deVisit"
+        match ConcCache.step s (some t) { key := none } 0 with
+        | some s' => .ok s'
+        | none => .error "model blocked at deVisit"
       | _ => .error s!"the real thread did {tok}, the model is inside the traversal of DeleteExpired"
     else
       match tokenOf s.g l with
